@@ -502,7 +502,7 @@ theorem comp_sequence (root : Members) (e : Bool) (adds : Members)
           | none => simp [hd1] at h
           | some z3 =>
             obtain ⟨fs1, c1⟩ := z3
-            simp only [hd1, Bool.false_and, Bool.false_eq_true, if_false] at h
+            simp only [hd1] at h
             cases hd2 : decComponentsS adds root.length fuel c1 with
             | none => simp [hd2] at h
             | some z4 =>
@@ -548,82 +548,97 @@ theorem comp_sequence (root : Members) (e : Bool) (adds : Members)
                   refine ⟨(mkTag 16 true tg).length + hdr + c.length, ?_, by omega⟩
                   simp [finishMembers, endCur, curAt, atEndB]
                 · simp only [hal, if_false]
-                  obtain ⟨hle2, slots2, hret2, hfill2⟩ := cs_retry false true fuel adds iha root.length
-                    (root.length + adds.length) fuelC c1 [] (rest' ++ extra) fs2
-                    ((mkTag 16 true tg).length + hdr + (c.length - c1.length)) hd2 (Nat.le_refl _) (Or.inl rfl)
-                    (fun h => by cases h) (by simp only [List.length_append]; omega)
-                  have hcur2 : endCur false c1 (rest' ++ extra) ((mkTag 16 true tg).length + hdr + (c.length - c1.length))
-                      = curAt false c1 (rest' ++ extra) ((mkTag 16 true tg).length + hdr + (c.length - c1.length)) := by
-                    simp [endCur]
-                  rw [hcur2, hret2]
-                  simp only [hfill2]
-                  refine ⟨(mkTag 16 true tg).length + hdr + c.length, ?_, by omega⟩
-                  simp [finishMembers, endCur, curAt, atEndB]
-                  omega
+                  by_cases hend : atEndB false c1 = true
+                  · -- the root loop reached the end of the contents: the additions loop is skipped
+                    obtain ⟨e1, e2⟩ := cs_absent false fuel true adds root.length c1 [] fs2 hend hd2
+                    subst e1
+                    simp only [hend, if_true, e2]
+                    refine ⟨(mkTag 16 true tg).length + hdr + c.length, ?_, by omega⟩
+                    simp [finishMembers, endCur, curAt, atEndB]
+                  · have hendf : atEndB false c1 = false := by simpa using hend
+                    simp only [hendf, Bool.false_eq_true, if_false]
+                    obtain ⟨hle2, slots2, hret2, hfill2⟩ := cs_retry false true fuel adds iha root.length
+                      (root.length + adds.length) fuelC c1 [] (rest' ++ extra) fs2
+                      ((mkTag 16 true tg).length + hdr + (c.length - c1.length)) hd2 (Nat.le_refl _) (Or.inl rfl)
+                      (fun h => by cases h) (by simp only [List.length_append]; omega)
+                    have hcur2 : endCur false c1 (rest' ++ extra) ((mkTag 16 true tg).length + hdr + (c.length - c1.length))
+                        = curAt false c1 (rest' ++ extra) ((mkTag 16 true tg).length + hdr + (c.length - c1.length)) := by
+                      simp [endCur]
+                    rw [hcur2, hret2]
+                    simp only [hfill2]
+                    refine ⟨(mkTag 16 true tg).length + hdr + c.length, ?_, by omega⟩
+                    simp [finishMembers, endCur, curAt, atEndB]
+                    omega
       | indefinite =>
         simp only [] at h
         cases hd1 : decComponentsS root 0 fuel r' with
         | none => simp [hd1] at h
         | some z3 =>
           obtain ⟨fs1, c1⟩ := z3
-          simp only [hd1, Bool.true_and] at h
-          by_cases hguard : (adds.length != 0 && startsEOC c1) = true
-          · simp [hguard] at h
-          · simp only [hguard, Bool.false_eq_true, if_false] at h
-            cases hd2 : decComponentsS adds root.length fuel c1 with
-            | none => simp [hd2] at h
-            | some z4 =>
-              obtain ⟨fs2, c2⟩ := z4
-              simp only [hd2] at h
-              have hc2 : ∃ rest0, c2 = 0 :: 0 :: rest0 ∧ rest0 = rest ∧ v = Val.record (fs1 ++ fs2) := by
-                match c2, h with
-                | 0 :: 0 :: rest0, h =>
-                  simp only [Option.some.injEq, Prod.mk.injEq] at h
-                  exact ⟨rest0, rfl, h.2, h.1.symm⟩
-              obtain ⟨rest0, hc2e, hr0, hv⟩ := hc2
-              subst hc2e; subst hr0; subst hv
-              have hlenI := readLen_of_readLength_indef (cs_readLength_append extra hrl)
-              rw [hlenI]
-              simp only []
-              have hrl1 := cs_readLength_indef_length hrl
-              have hbl : bs.length = (mkTag 16 true tg).length + r.length := by rw [hbs]; simp
-              simp only [List.length_append] at hf
-              have hcur : (⟨r' ++ extra, (mkTag 16 true tg).length + 1, none⟩ : Cur)
-                  = curAt true r' extra ((mkTag 16 true tg).length + 1) := rfl
-              rw [hcur]
-              -- the additions first (only for the length bookkeeping)
-              obtain ⟨hle2, _, _, _⟩ := cs_retry true true fuel adds iha root.length
-                (root.length + adds.length) (c1.length + extra.length + 1) c1 (0 :: 0 :: rest0) extra fs2 0 hd2 (Nat.le_refl _)
-                (Or.inl rfl) (fun _ => by simp) (by simp only [List.length_append]; omega)
-              simp only [List.length_cons] at hle2
-              have hy1 : atEndB true c1 = true ∨ TagGe root.length c1 := by
-                by_cases hc1 : atEndB true c1 = true
-                · exact Or.inl hc1
-                · exact Or.inr (cs_next_tag true fuel adds root.length (root.length + adds.length) c1 (0 :: 0 :: rest0)
-                    fs2 hd2 (Nat.le_refl _) (Or.inl rfl) (by simpa using hc1))
-              obtain ⟨hle1, slots1, hret1, hfill1⟩ := cs_retry true false fuel root ihr 0 root.length fuelC
-                r' c1 extra fs1 ((mkTag 16 true tg).length + 1) hd1 (by omega) hy1
-                (fun _ => by omega) (by simp only [List.length_append]; omega)
-              rw [hret1]
-              simp only [hfill1]
-              by_cases hal : adds.length = 0
-              · have := cs_members_nil hal
-                subst this
-                rw [decComponentsS] at hd2
-                simp only [Option.some.injEq, Prod.mk.injEq] at hd2
-                obtain ⟨e1, e2⟩ := hd2
-                subst e1; subst e2
-                simp only [Members.length, if_true]
+          simp only [hd1] at h
+          cases hd2 : decComponentsS adds root.length fuel c1 with
+          | none => simp [hd2] at h
+          | some z4 =>
+            obtain ⟨fs2, c2⟩ := z4
+            simp only [hd2] at h
+            have hc2 : ∃ rest0, c2 = 0 :: 0 :: rest0 ∧ rest0 = rest ∧ v = Val.record (fs1 ++ fs2) := by
+              match c2, h with
+              | 0 :: 0 :: rest0, h =>
+                simp only [Option.some.injEq, Prod.mk.injEq] at h
+                exact ⟨rest0, rfl, h.2, h.1.symm⟩
+            obtain ⟨rest0, hc2e, hr0, hv⟩ := hc2
+            subst hc2e; subst hr0; subst hv
+            have hlenI := readLen_of_readLength_indef (cs_readLength_append extra hrl)
+            rw [hlenI]
+            simp only []
+            have hrl1 := cs_readLength_indef_length hrl
+            have hbl : bs.length = (mkTag 16 true tg).length + r.length := by rw [hbs]; simp
+            simp only [List.length_append] at hf
+            have hcur : (⟨r' ++ extra, (mkTag 16 true tg).length + 1, none⟩ : Cur)
+                = curAt true r' extra ((mkTag 16 true tg).length + 1) := rfl
+            rw [hcur]
+            -- the additions first (only for the length bookkeeping)
+            obtain ⟨hle2, _, _, _⟩ := cs_retry true true fuel adds iha root.length
+              (root.length + adds.length) (c1.length + extra.length + 1) c1 (0 :: 0 :: rest0) extra fs2 0 hd2 (Nat.le_refl _)
+              (Or.inl rfl) (fun _ => by simp) (by simp only [List.length_append]; omega)
+            simp only [List.length_cons] at hle2
+            have hy1 : atEndB true c1 = true ∨ TagGe root.length c1 := by
+              by_cases hc1 : atEndB true c1 = true
+              · exact Or.inl hc1
+              · exact Or.inr (cs_next_tag true fuel adds root.length (root.length + adds.length) c1 (0 :: 0 :: rest0)
+                  fs2 hd2 (Nat.le_refl _) (Or.inl rfl) (by simpa using hc1))
+            obtain ⟨hle1, slots1, hret1, hfill1⟩ := cs_retry true false fuel root ihr 0 root.length fuelC
+              r' c1 extra fs1 ((mkTag 16 true tg).length + 1) hd1 (by omega) hy1
+              (fun _ => by omega) (by simp only [List.length_append]; omega)
+            rw [hret1]
+            simp only [hfill1]
+            by_cases hal : adds.length = 0
+            · have := cs_members_nil hal
+              subst this
+              rw [decComponentsS] at hd2
+              simp only [Option.some.injEq, Prod.mk.injEq] at hd2
+              obtain ⟨e1, e2⟩ := hd2
+              subst e1; subst e2
+              simp only [Members.length, if_true]
+              refine ⟨(mkTag 16 true tg).length + 1 + (r'.length - (rest0.length + 2)) + 2, ?_, by
+                simp only [List.length_cons] at hle1; omega⟩
+              simp [finishMembers, endCur, curAt, atEndB, startsEOC]
+            · simp only [hal, if_false]
+              by_cases hend : atEndB true c1 = true
+              · -- the root loop consumed the end-of-contents octets: the additions loop is skipped
+                -- (`while not out_of_data:`, /repo commit 300e5ac)
+                obtain ⟨e1, e2⟩ := cs_absent true fuel true adds root.length c1 (0 :: 0 :: rest0) fs2 hend hd2
+                subst e1
+                simp only [hend, if_true, e2]
                 refine ⟨(mkTag 16 true tg).length + 1 + (r'.length - (rest0.length + 2)) + 2, ?_, by
                   simp only [List.length_cons] at hle1; omega⟩
                 simp [finishMembers, endCur, curAt, atEndB, startsEOC]
-              · simp only [hal, if_false]
-                have hne : (adds.length != 0) = true := by simpa using hal
-                have hc1 : startsEOC c1 = false := by
-                  simpa [hne] using hguard
+              · have hendf : atEndB true c1 = false := by simpa using hend
+                have hc1 : startsEOC c1 = false := by simpa [atEndB] using hendf
+                simp only [hendf, Bool.false_eq_true, if_false]
                 have hcur2 : endCur true c1 extra ((mkTag 16 true tg).length + 1 + (r'.length - c1.length))
                     = curAt true c1 extra ((mkTag 16 true tg).length + 1 + (r'.length - c1.length)) :=
-                  cs_endCur_of_not_end extra _ (by simp [atEndB, hc1])
+                  cs_endCur_of_not_end extra _ hendf
                 obtain ⟨_, slots2, hret2, hfill2⟩ := cs_retry true true fuel adds iha root.length
                   (root.length + adds.length) fuelC c1 (0 :: 0 :: rest0) extra fs2
                   ((mkTag 16 true tg).length + 1 + (r'.length - c1.length)) hd2 (Nat.le_refl _) (Or.inl rfl)
